@@ -1,0 +1,12 @@
+//go:build verif
+
+package iri
+
+// Hooks for the verification harness in /verif (build tag "verif"): thin exported aliases of
+// unexported functions and fields so they can be exercised operation by operation.
+
+// VerifResolvePath exposes resolvePath (the function duplicated from net/url).
+func VerifResolvePath(base, ref string) string { return resolvePath(base, ref) }
+
+// VerifFlags exposes the two private flags of a ParsedIRI.
+func VerifFlags(p *ParsedIRI) (forceFragment, isOpaque bool) { return p.forceFragment, p.isOpaque }
